@@ -1176,6 +1176,17 @@ func (x *gen) environment(findings bool) []string {
 		st = append(st, "qq = quote("+[]string{"1+2", "a*b", "f(x)", "[1,2]"}[x.intn(4)]+")")
 	case 3:
 		st = append(st, "cnt = 0", "func bump() {cnt = cnt + 1}", "bump()", "bump()")
+	case 4:
+		// an alias of a named function whose name is then rebound to another named function (same or other text),
+		// a chain, the alias inside a container
+		b2 := []string{"x+1", "x+2"}[x.intn(2)]
+		st = append(st, "func afn(x){x+1}", "kal = afn", "func bfn(x){"+b2+"}", "afn = bfn")
+		switch x.intn(3) {
+		case 0:
+			st = append(st, "bfn = kal")
+		case 1:
+			st = append(st, "cfn = [bfn, {\"f\": bfn}]") // intact; a stale alias in a container is the recorded finding of the session family
+		}
 	}
 	if findings {
 		switch x.intn(8) {
